@@ -55,6 +55,15 @@ CHECKS = {
         note=("Trusted: vlib/simk.py file layer, c09 renderers. Presence of a device is observed at nowrap=True calls that return it."),
         design="DESIGN.md section 3 C10",
     ),
+    "C11": dict(
+        level="exploration",
+        technique="property-based testing (Hypothesis): generated /proc/net socket tables and holder processes -> set comparison with a model using inet_ntop on network-order bytes",
+        text=("Generated TCP/UDP/UNIX socket tables (arbitrary and special addresses, port 0, all TCP states, UNIX paths with spaces and abstract names, odd short lines) with 0-4 holders "
+              "per socket across readable and unreadable processes are parsed by the real code for one of the 11 kinds per case, system-wide and per-process; rows are compared as sets "
+              "with the model; invalid kinds must raise ValueError. Search, not proof."),
+        note=("Trusted: vlib/simk.py, the /proc/net renderers (calibrated each run against live loopback IPv4/IPv6/UNIX sockets). Socket tuples unique per table; any visible holder accepted for inet sockets."),
+        design="DESIGN.md section 3 C11",
+    ),
     "C12": dict(
         level="exploration",
         technique="property-based testing (Hypothesis): generated argv/title/environ blobs, link targets and (comm, argv[0]) pairs -> inverse-of-renderer oracle over a simulated procfs",
